@@ -4,6 +4,9 @@
 package verifgen
 
 import (
+	"crypto/ecdsa"
+	"crypto/elliptic"
+	"crypto/rand"
 	"encoding/json"
 
 	"github.com/trustbloc/sidetree-go/pkg/api/operation"
@@ -14,6 +17,9 @@ import (
 	verifrt "github.com/trustbloc/sidetree-go/pkg/internal/verifrt"
 	"github.com/trustbloc/sidetree-go/pkg/jws"
 	"github.com/trustbloc/sidetree-go/pkg/patch"
+	"github.com/trustbloc/sidetree-go/pkg/util/ecsigner"
+	"github.com/trustbloc/sidetree-go/pkg/util/pubkey"
+	"github.com/trustbloc/sidetree-go/pkg/util/signutil"
 	"github.com/trustbloc/sidetree-go/pkg/versions/1_0/model"
 )
 
@@ -137,4 +143,71 @@ func JSONValue(b []byte) interface{} {
 	var v interface{}
 	must(json.Unmarshal(b, &v), "json.Unmarshal")
 	return v
+}
+
+// ---------------------------------------------------------------------------------------------
+// Signed operations (real keys and the repo's real signers)
+
+// Signer: a P-256 key pair with its public JWK and JWS signer.
+type Signer struct {
+	Priv *ecdsa.PrivateKey
+	JWK  *jws.JWK
+	S    *ecsigner.Signer
+}
+
+func NewSigner(tag string) *Signer {
+	priv, err := ecdsa.GenerateKey(elliptic.P256(), rand.Reader)
+	must(err, "ecdsa.GenerateKey")
+	jwk, err := pubkey.GetPublicKeyJWK(&priv.PublicKey)
+	must(err, "GetPublicKeyJWK")
+	return &Signer{Priv: priv, JWK: jwk, S: ecsigner.New(priv, "ES256", "")}
+}
+
+func (s *Signer) Sign(model interface{}) string {
+	c, err := signutil.SignModel(model, s.S)
+	must(err, "SignModel")
+	return c
+}
+
+// Update operation signed by the update key, with the given next update key.
+type Update struct {
+	Signed  *model.UpdateSignedDataModel
+	Delta   *model.DeltaModel
+	Request *model.UpdateRequest
+}
+
+func NewUpdate(suffix string, code uint, key *Signer, next *jws.JWK, from, until int64, patches ...patch.Patch) *Update {
+	u := &Update{Delta: Delta(Commitment(next, code), patches...)}
+	u.Signed = &model.UpdateSignedDataModel{UpdateKey: key.JWK, DeltaHash: ModelHash(u.Delta, code), AnchorFrom: from, AnchorUntil: until}
+	u.Request = &model.UpdateRequest{Operation: operation.TypeUpdate, DidSuffix: suffix, RevealValue: Reveal(key.JWK, code),
+		SignedData: key.Sign(u.Signed), Delta: u.Delta}
+	return u
+}
+
+type Recover struct {
+	Signed  *model.RecoverSignedDataModel
+	Delta   *model.DeltaModel
+	Request *model.RecoverRequest
+}
+
+func NewRecover(suffix string, code uint, key *Signer, nextRecovery, nextUpdate *jws.JWK, from, until int64, patches ...patch.Patch) *Recover {
+	r := &Recover{Delta: Delta(Commitment(nextUpdate, code), patches...)}
+	r.Signed = &model.RecoverSignedDataModel{RecoveryKey: key.JWK, RecoveryCommitment: Commitment(nextRecovery, code),
+		DeltaHash: ModelHash(r.Delta, code), AnchorFrom: from, AnchorUntil: until}
+	r.Request = &model.RecoverRequest{Operation: operation.TypeRecover, DidSuffix: suffix, RevealValue: Reveal(key.JWK, code),
+		SignedData: key.Sign(r.Signed), Delta: r.Delta}
+	return r
+}
+
+type Deactivate struct {
+	Signed  *model.DeactivateSignedDataModel
+	Request *model.DeactivateRequest
+}
+
+func NewDeactivate(suffix string, code uint, key *Signer, from, until int64) *Deactivate {
+	d := &Deactivate{}
+	d.Signed = &model.DeactivateSignedDataModel{DidSuffix: suffix, RecoveryKey: key.JWK, AnchorFrom: from, AnchorUntil: until}
+	d.Request = &model.DeactivateRequest{Operation: operation.TypeDeactivate, DidSuffix: suffix, RevealValue: Reveal(key.JWK, code),
+		SignedData: key.Sign(d.Signed)}
+	return d
 }
